@@ -287,9 +287,10 @@ def check_annotate(ctx, case_seed):
         # the function is annotated already (T / U of its module); annotate replaces what it names and keeps the rest
         params = tuple((n_, k_, d_, (rnd.choice(('T', 'U')) if rnd.random() < 0.6 else a_)) for n_, k_, d_, a_ in params)
         already = {q[0] for q in params if q[3] is not None}
+    own_ret = 'U' if already and rnd.random() < 0.6 else None      # ... a return annotation of its own, too
     ctx.evaluated()
     ctx.count('C11.annotate_cases')
-    f = sigs.make_func(params, name='annotated', future=future, register=True, globs={'T': T1, 'U': T2})
+    f = sigs.make_func(params, name='annotated', future=future, register=True, globs={'T': T1, 'U': T2}, ret=own_ret)
     rp = dict(workload='annotate', case_seed=case_seed)
     w = {'function': '(%s)' % sigs.render(params), 'annotate': {k: repr(v) for k, v in values.items()},
          'return': repr(ret) if use_ret else None, 'future': future, 'stacked_under_kwoargs': stacked}
@@ -312,6 +313,14 @@ def check_annotate(ctx, case_seed):
               dict(w, got=repr(p.annotation), source_value=repr(p.upgraded_annotation.source_value())), rp)
     if use_ret and (s.return_annotation is not ret or s.upgraded_return_annotation.source_value() is not ret):
         V(ctx, 'annotate-return-not-verbatim', 'the return value given to annotate is not reported verbatim', w, rp)
+    if own_ret and not use_ret:
+        try:
+            kept = s.upgraded_return_annotation.source_value() is T2 and s.evaluated().return_annotation is T2
+        except Exception:
+            kept = False
+        if not kept:
+            V(ctx, 'annotate-disturbs-return-annotation', 'annotate was given no return value, yet the function\'s own return annotation no longer denotes its object',
+              dict(w, own_return_annotation='U', got=repr(s.upgraded_return_annotation.source_value())), rp)
     for n in named:
         if n not in values and n not in already and s.parameters[n].annotation is not EMPTY:
             V(ctx, 'annotate-spurious', 'parameter %r got an annotation nobody gave' % n, w, rp)
